@@ -59,6 +59,20 @@ def run : String :=
 def applyOptions : String :=
   "(block (if _ (== v0 nil) (block (= ((. v1 always)) (false)) (= ((. v1 dryrun)) (false)) (return)) _) (= ((. v1 always)) ((. v0 Always))) (= ((. v1 dryrun)) ((. v0 DryRun))))"
 
+def builtinRun : String :=
+  String.join [
+    "(block (:= (v8) ((assert (call (. v1 Local) \"module\") (* module)))) (var (v9) (* (. label Label)) ()) (typeswitch _ (:= (v3) ((assert v3 _))) (case ((. starlark String)) (= (v9 v7) ((call (. label Parse) (call string v3)))) (if _ (!= v7 nil) (block (return nil v7)) _) (= (v9 v7) ((call (. v9 RelativeTo) (. (. v8 label) Package)))) (if _ (!= v7 nil) (block (return nil v7)) _)) (case (Target) (= (v9) ((call (. v3 Label))))) (default (return nil (call (. fmt Errorf) \"%v: label_or_target must be a string or a target\" (call (. v2 Name)))))) (if _ (!= v6 nil) (block (:= (v10) ((u& (lit runEvents (kv c (call make (chan (. starlark Value)))) (kv callback v6) (kv done (call make (chan bool))))))) (go (call (. v10 process) v1)) (defer (call (. v10 Close))) (:= (v11) ((. v0 events))) (= ((. v0 events",
+    ")) (v10)) (defer (call (func (block (= ((. v0 events)) (v11))))))) _) (:= (v12) ((lit RunOptions (kv Always v4) (kv DryRun v5)))) (return (. starlark None) (call (. v0 Run) v9 (u& v12))))"]
+
+def runParams : List String :=
+  ["thread", "fn", "labelOrTarget", "always", "dryRun", "callback"]
+
+def runWrapperArgs : List String :=
+  ["thread", "fn", "labelOrTarget", "always", "dryRun", "callback"]
+
+def runWrapperKeywords : List String :=
+  ["label_or_target→labelOrTarget", "always??→always", "dry_run??→dryRun", "callback??→callback"]
+
 def applyNilAssigns : List String :=
   ["always", "dryrun"]
 
